@@ -360,6 +360,73 @@ def quiescence_oracle(sc):
     return viol, known
 
 
+def withheld_ledger(sc):
+    """Independent of the library's own in-flight counters: from the trace alone, decide that NOTHING is legitimately
+    withheld at the end of a settled run -- every stream that was sent DATA either had its RecvStream dropped (buffered
+    and later data is then given back on the spot) or had every payload byte delivered by poll_data and released -- and
+    then require the connection-level accounting to be exact: no bytes in flight, total credit = configured target.
+    ('every flow-controlled byte it receives ... padding, or data it discards ... is credited back exactly once')"""
+    if not sc.get("settled") or recv_teardown(sc):
+        return None
+    last = sc["trace"][-1]
+    sn = last.get("snap")
+    if not sn or last.get("io", {}).get("inbound", 0) != 0 or sn["conn"].get("conn_error"):
+        return None
+    cfg = sc["cfg"]
+    target = cfg.get("initial_connection_window_size") or 65535
+    h_sid, delivered, released, dropped, fed = {}, {}, {}, set(), {}
+    ended = False
+    for st in sc["trace"]:
+        op, res = st["op"], st.get("res")
+        name = op.get("op")
+        if isinstance(res, dict) and "h" in res and "sid" in res:
+            h_sid[res["h"]] = res["sid"]
+        if name == "set_target_window" and res == "ok":
+            target = op.get("n", target)
+        if name == "poll_data" and isinstance(res, dict) and "len" in res:
+            delivered[op["h"]] = delivered.get(op["h"], 0) + res["len"]
+        elif name == "release" and isinstance(res, dict) and res.get("ok"):
+            released[op["h"]] = released.get(op["h"], 0) + op.get("n", 0)
+        elif name == "drop_recv":
+            dropped.add(op.get("h"))
+        elif name in ("drop_conn", "conn_drop", "eof", "read_fail") or (name == "write_mode" and op.get("mode") == "fail"):
+            ended = True
+        if name == "peer" and isinstance(op.get("what"), dict):
+            w = op["what"]
+            if "chaos" in w or w.get("t") in ("GOAWAY",):
+                return None
+            if w.get("t") == "DATA":
+                fed[w["sid"]] = fed.get(w["sid"], 0) + w["len"]
+        for f in st["out"]:
+            if f["t"] == "GOAWAY":
+                return None
+    if ended or target <= 0 or not fed:
+        return None
+    sid_h = {}
+    for h, sid in h_sid.items():
+        sid_h.setdefault(sid, []).append(h)
+    for sid, n in fed.items():
+        hs = sid_h.get(sid)
+        if not hs:
+            return None                      # never surfaced: its data may legitimately wait in a queue
+        got = sum(delivered.get(h, 0) for h in hs)
+        rel = sum(released.get(h, 0) for h in hs)
+        if rel < got:
+            return None                      # taken by the application and never released: returned only when the stream is gone
+        if any(h in dropped for h in hs):
+            continue
+        if got != n:
+            return None
+    c = sn["conn"]
+    if c["recv_in_flight_data"] != 0:
+        return {"why": "bytes are still accounted as in flight on the connection although every byte received was released by the application "
+                       "or belongs to a stream whose receive handle was dropped (credit leaked)", "in_flight": c["recv_in_flight_data"], "fed": fed}
+    if c["recv_flow_available"] != target:
+        return {"why": "total connection credit differs from the configured target although nothing is withheld",
+                "credit": c["recv_flow_available"], "target": target}
+    return None
+
+
 def recv_teardown(sc):
     return teardown_step(sc["trace"]) is not None
 
@@ -389,7 +456,7 @@ def oracle_recvflow(rep, scs):
         if k:
             known += 1
             rep.known(k.split(" (stream")[0])
-        v = v or q
+        v = v or q or withheld_ledger(sc)
         if v:
             n_viol += 1
             if n_viol <= 3:
